@@ -334,6 +334,46 @@ def _is_presentation(f: Optional[Func], mod: Module) -> Optional[str]:
     return None
 
 
+def _deferred_coercion(prog: Program, mod, f, call: ast.Call):
+    """A coercion whose operand is a field of `self` that can still hold the bare number the caller gave (some store of
+    the field takes a parameter - possibly through `or` / a conditional - without coercing it).  -> (field text, store
+    text) or None.  A coercion belongs where the number arrives; applied to a stored value it reads the setting in force
+    at the time of use."""
+    if f is None or f.cls is None or not f.positional or len(call.args) != 1:
+        return None
+    me = f.positional[0]
+    for x in ast.walk(call.args[0]):
+        if not (isinstance(x, ast.Attribute) and isinstance(x.ctx, ast.Load) and isinstance(x.value, ast.Name) and x.value.id == me):
+            continue
+        if isinstance(parent(x), ast.Call) and parent(x).func is x:
+            continue
+        if prog.find_method(f.cls, x.attr) is not None:
+            continue                    # a property / method: it returns what it coerces itself
+        for c_ in prog.mro(f.cls):
+            for m_ in list(c_.methods.values()) + list(c_.setters.values()):
+                if not m_.positional:
+                    continue
+                for st_ in ast.walk(m_.node):
+                    if not isinstance(st_, (ast.Assign, ast.AnnAssign)) or st_.value is None:
+                        continue
+                    tgts = st_.targets if isinstance(st_, ast.Assign) else [st_.target]
+                    if not any(isinstance(t_, ast.Attribute) and t_.attr == x.attr and isinstance(t_.value, ast.Name)
+                               and t_.value.id == m_.positional[0] for t_ in tgts):
+                        continue
+                    # operands of the stored value that are plain parameters outside any call
+                    def bare_params(e) -> List[str]:
+                        if isinstance(e, ast.Name):
+                            return [e.id] if e.id in m_.params else []
+                        if isinstance(e, ast.BoolOp):
+                            return [n_ for v_ in e.values for n_ in bare_params(v_)]
+                        if isinstance(e, ast.IfExp):
+                            return bare_params(e.body) + bare_params(e.orelse)
+                        return []
+                    if bare_params(st_.value):
+                        return f'{me}.{x.attr}', norm(st_)[:70]
+    return None
+
+
 def check_no_leak(prog: Program, rep, rule: str) -> None:
     umod = prog.module(C.M_UNIT)
     for mod in prog.modules.values():
@@ -346,7 +386,14 @@ def check_no_leak(prog: Program, rep, rule: str) -> None:
                 p = parent(n)
                 fq = f.qualname if f else '<module>'
                 if isinstance(p, ast.Call) and p.func is n:
-                    rep.ok(rule, mod.where(n), f'{fq}: PreferredUnits.{n.attr}(...) coercion')
+                    late = _deferred_coercion(prog, mod, f, p)
+                    if late:
+                        rep.fail(rule, mod.path, n.lineno, fq, f'deferred:{late[0]}',
+                                 f'{fq} coerces the stored value `{late[0]}` with PreferredUnits.{n.attr} when it is used, and '
+                                 f'`{late[1]}` stores it as it arrives: a bare number given earlier is read in the unit preferred '
+                                 f'at the time of use, so the same input means different things before and after a change of setting')
+                    else:
+                        rep.ok(rule, mod.where(n), f'{fq}: PreferredUnits.{n.attr}(...) coercion')
                     continue
                 why = _is_presentation(f, mod)
                 if why:
